@@ -2,11 +2,66 @@
 
 package markers
 
-// Contracts for the deductive verifier in /verif (comment-only file).
+// Contracts for the deductive verifier in /verif (comment-only file; see /verif/DESIGN.md).
+
+// ---- the documented equivalence, written independently of the code (C08) ----
 
 //@ spec func markEq(a errorMark, b errorMark) bool = a.msg == b.msg && len(a.types) == len(b.types) && (forall i int :: 0 <= i && i < len(a.types) ==> tmEq(a.types[i], b.types[i]))
+//@ spec func markOf(e error) errorMark
+//@ spec func isM2(c error, r error) bool = hasMethod(typeof(c), "Is(error) bool") && isM(c, r)
+//@ spec func hereA(c error, r error) bool = (comparable(typeof(r)) && c == r) || isM2(c, r) || (exists j int :: 0 <= j && j < len(causes(c)) && isSpec(causes(c)[j], r))
+//@ spec func isA(e error, r error) bool
+//@ unfold isA(e, r) = e != nil && (hereA(e, r) || isA(cause1(e), r))
+//@ spec func isB(e error, r error) bool
+//@ unfold isB(e, r) = e != nil && (markEq(markOf(e), markOf(r)) || isB(cause1(e), r))
+//@ spec func isSpec(e error, r error) bool
+//@ unfold isSpec(e, r) = r == nil ? e == nil : (isA(e, r) || (e != nil && isB(e, r)))
 
 //@ func equalMarks
 //@   props C08 C02 C17
 //@   ensures result == markEq(m1, m2)
 //@   loop 1: invariant forall j int :: 0 <= j && j < i ==> tmEq(m1.types[j], m2.types[j])
+
+//@ func safeGetErrMsg
+//@   trusted "defer/recover; T6: a foreign Error() does not panic"
+//@   requires err != nil
+//@   ensures result == msg(err)
+
+//@ func getMark
+//@   props C08 C02
+//@   requires err != nil
+//@   defines markOf(err)
+//@   ensures typeis(err, *withMark) ==> result == err.(*withMark).mark
+//@   ensures !typeis(err, *withMark) ==> result.msg == msg(err)
+//@   ensures !typeis(err, *withMark) ==> len(result.types) == chainLen(err)
+//@   ensures !typeis(err, *withMark) ==> (forall i int :: 0 <= i && i < chainLen(err) ==> result.types[i] == tmark(chainAt(err, i)))
+//@   loop 1: ghost k int = 1 step k + 1
+//@           invariant k >= 1 && c == chainAt(err, k) && len(m.types) == k
+//@           invariant forall j int :: 0 <= j && j < k ==> chainAt(err, j) != nil
+//@           invariant forall j int :: 0 <= j && j < k ==> m.types[j] == tmark(chainAt(err, j))
+//@           invariant m.msg == msg(err)
+
+//@ func Is
+//@   props C08 C02 C07 C13 C14
+//@   ensures result == isSpec(err, reference)
+//@   loop 1: invariant reference != nil && (isA(err, reference) <==> isA(c, reference))
+//@   loop 2: invariant forall j int :: 0 <= j && j < $n ==> !isSpec(causes(c)[j], reference)
+//@   loop 3: invariant err != nil && reference != nil && !isA(err, reference) && (isB(err, reference) <==> isB(c, reference))
+
+//@ func Mark
+//@   props C08 C07 C10
+//@   requires reference != nil
+//@   ensures err == nil ==> result == nil
+//@   ensures err != nil ==> typeis(result, *withMark) && result.(*withMark).cause == err && result.(*withMark).mark == markOf(reference)
+
+//@ type withMark invariant self.cause != nil
+
+//@ method (*withMark).Error
+//@   props C10
+//@   ensures result == msg(self.cause)
+//@ method (*withMark).Cause
+//@   props C07 C10
+//@   ensures result == self.cause
+//@ method (*withMark).Unwrap
+//@   props C07 C10 C14
+//@   ensures result == self.cause
